@@ -38,10 +38,15 @@ pub struct NodeCfg {
     pub filter: bool,
     /// Some(k): replication factor k (used to make `num_beyond_k` non-zero)
     pub replication_factor: Option<usize>,
+    /// record replication / publication intervals (None, None = PutRecordJob disabled). The job's
+    /// `futures_timer::Delay` is real and far beyond any real run time; the job becomes ready
+    /// through its `now >= deadline` test on the virtual clock.
+    pub replication: Option<Duration>,
+    pub publication: Option<Duration>,
 }
 impl Default for NodeCfg {
     fn default() -> Self {
-        NodeCfg { record_ttl: None, provider_ttl: None, filter: false, replication_factor: None }
+        NodeCfg { record_ttl: None, provider_ttl: None, filter: false, replication_factor: None, replication: None, publication: None }
     }
 }
 
@@ -59,8 +64,8 @@ impl Node {
         cfg.set_record_ttl(c.record_ttl);
         cfg.set_provider_record_ttl(c.provider_ttl);
         cfg.set_record_filtering(if c.filter { StoreInserts::FilterBoth } else { StoreInserts::Unfiltered });
-        cfg.set_replication_interval(None);
-        cfg.set_publication_interval(None);
+        cfg.set_replication_interval(c.replication);
+        cfg.set_publication_interval(c.publication);
         cfg.set_provider_publication_interval(None);
         cfg.set_periodic_bootstrap_interval(None);
         if let Some(k) = c.replication_factor {
